@@ -47,7 +47,8 @@ fn array_to_datetime<V: ValT>(v: &[V]) -> Option<Result<DateTime, jiff::Error>> 
         i8(min)?,
         // the `as i8` cast saturates, returning a number in the range [-128, 128]
         sec.floor() as i8,
-        (sec.fract() * 1e9) as i32,
+        // round to the nearest nanosecond, because e.g. 1.000001.fract() * 1e9 is 999.9999999177334
+        ((sec.fract() * 1e9).round() as i32).min(999_999_999),
     ))
 }
 
